@@ -1,37 +1,114 @@
 import NodisVerif.Model.Codec
 import NodisVerif.Model.WF
+import NodisVerif.Proofs.VarintLemmas
+import NodisVerif.Proofs.CodecLemmas
+import NodisVerif.Proofs.ZSetLemmas
+import NodisVerif.Proofs.C14Counterexamples
+/-
+  C14 helper lemmas.
+
+  STATUS
+  * uvarint_putUvarint, varint_putVarint, decodeKey_encodeKey, str_roundtrip: proved.
+  * the collection round trips need every length-prefixed chunk to be shorter than 2^63 bytes
+    (a Go slice length is an int; `List` lengths in the model are unbounded, and a chunk of
+    ≥ 2^63 bytes gets a length prefix that `binary.Uvarint` rejects as a 64-bit overflow).
+    Without that guard the statements are false: refutations in `Proofs/C14Counterexamples.lean`
+    (`list_roundtrip_false`, `set_roundtrip_false`, `hash_roundtrip_false`,
+    `zset_roundtrip_false`), and the variants with the missing length bound are proved below
+    under the names `<name>_partial`.
+-/
 namespace NodisVerif.Proofs.C14
-open Varint Codec
+open Varint Codec CodecLemmas AListLemmas
 
 theorem uvarint_putUvarint (n : Nat) (h : n < 2 ^ 64) (rest : Bytes) :
-    uvarint (putUvarint n ++ rest) = (n, ((putUvarint n).length : Int)) := by
-  sorry
+    uvarint (putUvarint n ++ rest) = (n, ((putUvarint n).length : Int)) :=
+  VarintLemmas.uvarint_putUvarint n h rest
 
 theorem varint_putVarint (x : Int) (h : inInt64 x = true) (rest : Bytes) :
-    varint (putVarint x ++ rest) = (x, ((putVarint x).length : Int)) := by
-  sorry
+    varint (putVarint x ++ rest) = (x, ((putVarint x).length : Int)) :=
+  VarintLemmas.varint_putVarint x h rest
 
 theorem decodeKey_encodeKey (name : Bytes) (exp : Int) (h : inInt64 exp = true) :
     decodeKey (encodeKey name exp) = some (name, exp) := by
-  sorry
+  unfold decodeKey encodeKey
+  rw [VarintLemmas.varint_putVarint exp h name]
+  have hp := VarintLemmas.putVarint_length_pos exp
+  have : ¬ ((putVarint exp).length : Int) ≤ 0 := by omega
+  simp only [this, if_false, Int.toNat_natCast, List.drop_left]
 
 theorem str_roundtrip (v : Bytes) : decodeEntry (encodeEntry (.str v)) = some (.str v) := by
-  sorry
+  simp [decodeEntry, encodeEntry, Val.typeCode, encodeVal]
 
-theorem list_roundtrip (l : LList) (h : l.WF) :
+
+
+
+
+/-! ### the same statements with the missing bound: every length-prefixed chunk is shorter
+    than 2^63 bytes (its length is an int64 whose zig-zag fits a uint64) -/
+
+theorem list_roundtrip_partial (l : LList) (h : l.WF)
+    (hlen : ∀ v ∈ l.items, v.length < 2 ^ 63) :
     decodeEntry (encodeEntry (.list l)) = some (.list l) := by
-  sorry
+  have e : decodeEntry (encodeEntry (.list l))
+      = (decodeList (encodeList l) DsList.empty ((encodeList l).length + 1)).map .list := rfl
+  rw [e]
+  unfold encodeList
+  rw [forEach_all, decodeList_flatMap l.items _ _ hlen (by omega), rpush_eq]
+  unfold LList.WF at h
+  cases l with
+  | mk items length =>
+    simp only [DsList.empty, List.nil_append, Option.map_some, Option.some.injEq, Val.list.injEq,
+      LList.mk.injEq, true_and] at h ⊢
+    omega
 
-theorem hash_roundtrip (m : AList Bytes) (h : AList.Sorted m) :
-    decodeEntry (encodeEntry (.hash m)) = some (.hash m) := by
-  sorry
-
-theorem set_roundtrip (m : AList Unit) (h : AList.Sorted m) :
+theorem set_roundtrip_partial (m : AList Unit) (h : AList.Sorted m)
+    (hlen : ∀ p ∈ m, p.1.length < 2 ^ 63) :
     decodeEntry (encodeEntry (.set m)) = some (.set m) := by
-  sorry
+  have e : decodeEntry (encodeEntry (.set m))
+      = (decodeSet (encodeSet m) [] ((encodeSet m).length + 1)).map .set := rfl
+  rw [e, decodeSet_all m [] _ hlen (by simpa using sorted_pairwise m h) (by omega)]
+  simp
 
-theorem zset_roundtrip (z : ZSet) (h : z.WF) :
+/-- exact bound: the item `varint(len field) ++ field ++ value` is shorter than 2^63 bytes -/
+theorem hash_roundtrip_partial (m : AList Bytes) (h : AList.Sorted m)
+    (hlen : ∀ p ∈ m, (lenPrefixed p.1 ++ p.2).length < 2 ^ 63) :
+    decodeEntry (encodeEntry (.hash m)) = some (.hash m) := by
+  have e : decodeEntry (encodeEntry (.hash m))
+      = (decodeHash (encodeHash m) [] ((encodeHash m).length + 1)).map .hash := rfl
+  have hlen' : ∀ p ∈ m, p.1.length < 2 ^ 63 ∧ (lenPrefixed p.1 ++ p.2).length < 2 ^ 63 := by
+    intro p hp
+    have h1 := hlen p hp
+    refine ⟨?_, h1⟩
+    rw [List.length_append, lenPrefixed_length] at h1
+    omega
+  rw [e, decodeHash_all m [] _ hlen' (by simpa using sorted_pairwise m h) (by omega)]
+  simp
+
+/-- simple sufficient bound: field and value together leave room for the 10-byte varint -/
+theorem hash_roundtrip_partial' (m : AList Bytes) (h : AList.Sorted m)
+    (hlen : ∀ p ∈ m, p.1.length + p.2.length + 10 < 2 ^ 63) :
+    decodeEntry (encodeEntry (.hash m)) = some (.hash m) := by
+  apply hash_roundtrip_partial m h
+  intro p hp
+  have h1 := hlen p hp
+  have h2 := VarintLemmas.putVarint_length_le (p.1.length : Int) (inInt64_len _ (by omega))
+  rw [List.length_append, lenPrefixed_length]
+  omega
+
+theorem zset_roundtrip_partial (z : ZSet) (h : z.WF)
+    (hlen : ∀ p ∈ z.dict, p.1.length + 8 < 2 ^ 63) :
     decodeEntry (encodeEntry (.zset z)) = some (.zset z) := by
-  sorry
+  have e : decodeEntry (encodeEntry (.zset z))
+      = (decodeZSet (encodeZSet ⟨z.dict, []⟩) ⟨[], []⟩
+          ((encodeZSet ⟨z.dict, []⟩).length + 1)).map .zset := rfl
+  have hlen' : ∀ p ∈ z.dict, (u64le p.2 ++ p.1).length < 2 ^ 63 := by
+    intro p hp
+    have := hlen p hp
+    rw [List.length_append, u64le_length]
+    omega
+  rw [e, decodeZSet_all z.dict [] [] _ hlen'
+    (by simpa using sorted_pairwise z.dict h.dictSorted) (by omega),
+    ZSetLemmas.insAll_eq_chain z h]
+  simp
 
 end NodisVerif.Proofs.C14
